@@ -35,6 +35,15 @@ def _choose_matrix_product_class(matrix_l: Matrix, matrix_r: Matrix) -> MatrixPr
     return MatrixProduct
 
 
+def _set_read_only(*values: Any) -> None:  # noqa: ANN401
+    """Set write flag of any NumPy arrays in arguments (or tuples of them) to False."""
+    for val in values:
+        if isinstance(val, np.ndarray):
+            val.flags.writeable = False
+        elif isinstance(val, tuple):
+            _set_read_only(*val)
+
+
 def _is_scalar(val: Any) -> bool:  # noqa: ANN401
     return isinstance(val, numbers.Number) or (
         hasattr(val, "__array__") and np.ndim(val) == 0
@@ -1287,6 +1296,7 @@ class DenseSquareMatrix(InvertibleMatrix, ExplicitArrayMatrix):
                 transpose.
         """
         super().__init__(array.shape, _array=array)
+        _set_read_only(lu_and_piv)
         self._lu_and_piv = lu_and_piv
         self._lu_transposed = lu_transposed
 
@@ -1351,6 +1361,7 @@ class InverseLUFactoredSquareMatrix(InvertibleMatrix, ImplicitArrayMatrix):
                 transpose of inverse of array.
         """
         super().__init__(inv_array.shape)
+        _set_read_only(inv_array, inv_lu_and_piv)
         self._inv_array = inv_array
         self._inv_lu_and_piv = inv_lu_and_piv
         self._inv_lu_transposed = inv_lu_transposed
@@ -1431,6 +1442,7 @@ class DenseSymmetricMatrix(SymmetricMatrix, InvertibleMatrix, ExplicitArrayMatri
         super().__init__(array.shape, _array=array)
         if isinstance(eigvec, np.ndarray):
             eigvec = OrthogonalMatrix(eigvec)
+        _set_read_only(eigval)
         self._eigvec = eigvec
         self._eigval = eigval
 
@@ -1553,6 +1565,7 @@ class EigendecomposedSymmetricMatrix(
         if isinstance(eigvec, np.ndarray):
             eigvec = OrthogonalMatrix(eigvec)
         super().__init__(eigvec.shape)
+        _set_read_only(eigval)
         self._eigvec = eigvec
         self._eigval = eigval
         if not isinstance(eigval, np.ndarray) or eigval.size == 1:
@@ -1654,6 +1667,7 @@ class SoftAbsRegularizedPositiveDefiniteMatrix(
             raise ValueError(msg)
         self._softabs_coeff = softabs_coeff
         self.unreg_eigval, eigvec = nla.eigh(symmetric_array)
+        _set_read_only(self.unreg_eigval)
         eigval = self.softabs(self.unreg_eigval)
         super().__init__(eigvec, eigval)
 
